@@ -87,6 +87,14 @@ func (v *fnVC) call(in ssa.CallInstruction, st *State) {
 		default:
 			fv := v.val(c.Value)
 			v.safetyOb("nil-func-call", in.Pos(), tNot(tEq(fv, mk("nilFn", sFn))))
+			if yc := yieldClosureArg(c); yc != nil {
+				// range-over-func: the iterator calls the loop body (yield closure) zero or more
+				// times; without a loop invariant all that is known afterwards is the frame.
+				v.havocFuncBody(yc.Fn.(*ssa.Function), st)
+				v.e.uses["range-over-func: the iterator function itself writes nothing the caller can see; it only calls the loop body (yield)"] = true
+				v.notes = append(v.notes, "range-over-func loop at "+v.pos(in.Pos())+": loop body effects havocked (no iterator invariant)")
+				return
+			}
 			ci.display = "func value " + c.Value.Name()
 			// a parameter of function type may carry a contract:  `iface param:<func>.<name>`
 			ci.key = "fnparam:" + v.fn.RelString(nil) + "." + c.Value.Name()
@@ -207,8 +215,7 @@ func (v *fnVC) applyCall(in ssa.Instruction, ci calleeInfo, args []*T, st *State
 		return x
 	}
 	// preconditions
-	n := v.callOrd["call:"+ci.key]
-	v.callOrd["call:"+ci.key] = n + 1
+	n := v.ordinal[in]
 	xpre := mkEx(st, st)
 	for k, c := range ct.Requires {
 		g := xpre.Bool(c.Expr)
@@ -635,8 +642,7 @@ func (v *fnVC) ret(i *ssa.Return, st *State) {
 		}
 	}
 	x := v.exFor(st, v.entry, vars)
-	nret := v.callOrd["ret"]
-	v.callOrd["ret"] = nret + 1
+	nret := v.ordinal[i]
 	for k, c := range v.ct.Ensures {
 		g := x.Bool(c.Expr)
 		v.oblige("post", fmt.Sprintf("post%s@ret%d", clauseTag(c, k), nret), v.propsOf(c), c.Expr, v.pos(i.Pos()), R, g, st)
@@ -676,8 +682,7 @@ func (v *fnVC) goStmt(i *ssa.Go, st *State) {
 			for _, l := range ct.Lets {
 				x.lets[l.Name] = l.Expr
 			}
-			n := v.callOrd["go:"+funcKey(fn)]
-			v.callOrd["go:"+funcKey(fn)] = n + 1
+			n := v.ordinal[i]
 			for k, cl := range ct.Requires {
 				props := unionProps(cl.Props, unionProps(ct.Props, v.ctProps()))
 				v.oblige("pre@go", fmt.Sprintf("pre:%s%s@go%d", lastSeg(shortKey(funcKey(fn))), clauseTag(cl, k), n), props, cl.Expr, v.pos(i.Pos()), v.reachNow(), x.Bool(cl.Expr), st)
